@@ -149,8 +149,95 @@ theorem provenance (cells : List FCell) :
           · exact List.mem_cons_of_mem _ he
           · exact List.mem_cons_of_mem _ hb'
 
-example : fillCells [⟨1, 0, some 5, "0", ""⟩, ⟨2, 5, none, "3", "-1.0"⟩, ⟨3, 5, some 6, "0", ""⟩, ⟨4, 6, none, "7", "-2"⟩] 5
-    ⟨1, 0, some 5, "0", ""⟩ =
-    some [⟨2, [1], [(2, 1)], "3", "-1.0"⟩, ⟨4, [3, 1], [(4, 3), (4, 1)], "7", "-2"⟩] := by decide
+/-! ### which frame: the FILL transformation, or else the container's TRCLs -/
+
+/-- **the FILL transformation takes precedence**: when a cell has both, its TRCL does not enter the frame of the
+filling universe -/
+theorem fill_transformation_overrides_trcl (c : FCell) (t : Nat) (h : c.filltr = some t) : c.frameTrs = [t] := by
+  simp [FCell.frameTrs, h]
+
+/-- when the FILL has no transformation the universe is placed by the container's TRCLs, in their order -/
+theorem trcl_places_the_universe (c : FCell) (h : c.filltr = none) : c.frameTrs = c.trcl := by
+  simp [FCell.frameTrs, h]
+
+/-- **the transformations a generated cell has gone through**: for the containers on its path, innermost first, the
+frame transformations of each, in that order — at any nesting depth -/
+theorem frame_choice (cells : List FCell) :
+    ∀ (fuel : Nat) (c : FCell) (leaves : List FLeaf), fillCells cells fuel c = some leaves →
+      ∀ l ∈ leaves, ∃ cs : List FCell, cs.map (·.id) = l.path ∧ (∀ x ∈ cs, x ∈ c :: cells) ∧
+        l.moves = cs.flatMap FCell.frameTrs
+  | 0, _, _, h => by simp [fillCells] at h
+  | fuel + 1, c, leaves, h => by
+      intro l hl
+      unfold fillCells at h
+      cases hf : c.fill with
+      | none =>
+        simp only [hf, Option.some.injEq] at h
+        subst h
+        simp only [List.mem_singleton] at hl
+        subst hl
+        exact ⟨[], rfl, by simp, rfl⟩
+      | some u =>
+        simp only [hf, Option.map_eq_some_iff] at h
+        obtain ⟨ls, hls, rfl⟩ := h
+        obtain ⟨l', hl', rfl⟩ := List.mem_map.mp hl
+        have : ∃ e ∈ cells, ∃ le, fillCells cells fuel e = some le ∧ l' ∈ le := by
+          clear hl
+          generalize hes : cells.filter (·.univ == u) = es at hls
+          have hsub : ∀ e ∈ es, e ∈ cells := fun e he => (List.mem_filter.mp (hes ▸ he)).1
+          clear hes
+          induction es generalizing ls with
+          | nil =>
+            simp only [List.mapM_nil, pure, Option.some.injEq] at hls
+            subst hls; simp at hl'
+          | cons e es ih =>
+            obtain ⟨le, rest, hle, hrest, rfl⟩ := mapM_some_cons hls
+            simp only [List.flatten_cons, List.mem_append] at hl'
+            rcases hl' with h1 | h2
+            · exact ⟨e, hsub e List.mem_cons_self, le, hle, h1⟩
+            · exact ih rest h2 hrest (fun e' he' => hsub e' (List.mem_cons_of_mem _ he'))
+        obtain ⟨e, he, le, hle, hmem⟩ := this
+        obtain ⟨cs, hcs, hin, hmv⟩ := frame_choice cells fuel e le hle l' hmem
+        refine ⟨cs ++ [c], by simp [FLeaf.wrap, hcs], ?_, by simp [FLeaf.wrap, hmv]⟩
+        intro x hx
+        rcases List.mem_append.mp hx with h1 | h2
+        · rcases List.mem_cons.mp (hin x h1) with rfl | h3
+          · exact List.mem_cons_of_mem _ he
+          · exact List.mem_cons_of_mem _ h3
+        · simp only [List.mem_singleton] at h2
+          subst h2; exact List.mem_cons_self
+
+section
+variable {P : Type}
+/-- a point of the outermost container's frame, carried through the containers (outermost first) into the frame of
+the base cell: each container maps it by its frame transformations (`act t p`: the coordinates of `p` before the
+move `t`, MCNP's `toAux`; the last move applied is undone first) -/
+def transportCells (act : Nat → P → P) : List FCell → P → P
+  | [], p => p
+  | c :: inner, p => transportCells act inner (c.frameTrs.foldr act p)
+
+/-- **the recorded moves realise the nested frame maps**: undoing the moves of a generated cell, last one first, is
+the same as walking the point through the containers from the outside in -/
+theorem moves_transport (act : Nat → P → P) (cs : List FCell) (p : P) :
+    transportCells act cs.reverse p = (cs.flatMap FCell.frameTrs).foldr act p := by
+  induction cs generalizing p with
+  | nil => rfl
+  | cons c cs ih =>
+    have happ : ∀ (a : List FCell) (q : P),
+        transportCells act (a ++ [c]) q = c.frameTrs.foldr act (transportCells act a q) := by
+      intro a
+      induction a with
+      | nil => intro q; rfl
+      | cons x xs ihx => intro q; simp only [List.cons_append, transportCells]; exact ihx _
+    rw [List.reverse_cons, happ, ih, List.flatMap_cons, List.foldr_append]
+end
+
+example : fillCells [{ id := 1, univ := 0, fill := some 5, filltr := some 71, trcl := [72] },
+      { id := 2, univ := 5, mat := "3", rho := "-1.0" },
+      { id := 3, univ := 5, fill := some 6, trcl := [73, 74] }, { id := 4, univ := 6, mat := "7", rho := "-2" }] 5
+    { id := 1, univ := 0, fill := some 5, filltr := some 71, trcl := [72] } =
+    some [{ base := 2, path := [1], origin := [(2, 1)], mat := "3", rho := "-1.0", moves := [71] },
+          { base := 4, path := [3, 1], origin := [(4, 3), (4, 1)], mat := "7", rho := "-2", moves := [73, 74, 71] }] := by
+  decide
 
 end T4V.C05
